@@ -79,17 +79,17 @@ def getItem (s : ScopeRec) (name : String) : Found :=
     | none => .undefined
 
 /-- `Scope.value_for`: walk the parent chain (fuel = number of scopes; parents have smaller indices) -/
-def valueForAux (r : Resolver) (name : String) : Nat → Nat → Found
+def valueForAux (scopes : Array ScopeRec) (name : String) : Nat → Nat → Found
   | 0, _ => .undefined
   | fuel+1, i =>
-    let s := r.scopeAt i
-    match s.parent with
+    match (scopes.getD i default).parent with
     | some p =>
-      if (alookup name s.symbols).isSome || (alookup name s.codeSymbols).isSome then getItem s name
-      else valueForAux r name fuel p
-    | none => getItem s name
+      if (alookup name (scopes.getD i default).symbols).isSome || (alookup name (scopes.getD i default).codeSymbols).isSome
+      then getItem (scopes.getD i default) name
+      else valueForAux scopes name fuel p
+    | none => getItem (scopes.getD i default) name
 
-def valueFor (r : Resolver) (name : String) : Found := valueForAux r name (r.scopes.size + 1) r.current
+def valueFor (r : Resolver) (name : String) : Found := valueForAux r.scopes name (r.scopes.size + 1) r.current
 
 /-- lookup function handed to the expression evaluator -/
 def look (r : Resolver) (name : String) : Look :=
